@@ -64,7 +64,7 @@ type PraosChainSelector struct {
 	// (see genesis.ComputeGenesisWindow; mainnet 129600). When it is zero,
 	// or when the tips being compared do not implement WindowBlockCounter,
 	// deep-fork comparison falls back to the legacy ChainTip.Density
-	// ratio; see compareDensity.
+	// ratio; see compareDensityMetric.
 	GenesisWindowSlots uint64
 
 	// warnFallbackDensity throttles the legacy-metric warning to once per
@@ -96,7 +96,7 @@ type ForkPoint struct {
 //
 // ChainTip itself is unchanged, so existing implementations keep working;
 // a tip that also implements this interface gets the canonical metric
-// instead of the ChainTip.Density ratio (see compareDensity).
+// instead of the ChainTip.Density ratio (see compareDensityMetric).
 type WindowBlockCounter interface {
 	// BlocksInWindow returns the number of blocks on this chain whose slot
 	// lies within the genesis window after forkSlot: a block at slot s
@@ -221,7 +221,25 @@ func (p *PraosChainSelector) IsDeepFork(
 	return tipBlockNumber-fork.BlockNumber > p.SecurityParam
 }
 
-// compareDensity compares the density of two tips over the genesis window
+// windowMetricFor reports whether the canonical window-count metric can be
+// used for ALL of the given tips: a window must be configured and every
+// non-nil tip must implement WindowBlockCounter.
+func (p *PraosChainSelector) windowMetricFor(tips ...ChainTip) bool {
+	if p.GenesisWindowSlots == 0 {
+		return false
+	}
+	for _, t := range tips {
+		if t == nil {
+			continue
+		}
+		if _, ok := t.(WindowBlockCounter); !ok {
+			return false
+		}
+	}
+	return true
+}
+
+// compareDensityMetric compares the density of two tips over the genesis window
 // after fork. It returns a positive value if a is denser, a negative value
 // if b is denser, and zero if they are equal.
 //
@@ -231,16 +249,22 @@ func (p *PraosChainSelector) IsDeepFork(
 // ChainTip.Density ratio and warns once, because that ratio is measured
 // over the whole fork suffix rather than a fixed window and so is not the
 // Genesis metric.
-func (p *PraosChainSelector) compareDensity(
+//
+// The metric is chosen by the caller (see windowMetricFor): the window block
+// count when useWindow is true — both tips must then implement
+// WindowBlockCounter — and the legacy ratio otherwise.
+func (p *PraosChainSelector) compareDensityMetric(
 	a, b ChainTip,
 	fork ForkPoint,
+	useWindow bool,
 ) int {
-	aCounter, aOK := a.(WindowBlockCounter)
-	bCounter, bOK := b.(WindowBlockCounter)
-
-	if p.GenesisWindowSlots > 0 && aOK && bOK {
-		aBlocks := aCounter.BlocksInWindow(fork.Slot, p.GenesisWindowSlots)
-		bBlocks := bCounter.BlocksInWindow(fork.Slot, p.GenesisWindowSlots)
+	if useWindow {
+		aBlocks := a.(WindowBlockCounter).BlocksInWindow(
+			fork.Slot, p.GenesisWindowSlots,
+		)
+		bBlocks := b.(WindowBlockCounter).BlocksInWindow(
+			fork.Slot, p.GenesisWindowSlots,
+		)
 		if aBlocks > bBlocks {
 			return 1
 		}
@@ -299,6 +323,19 @@ func (p *PraosChainSelector) CompareWithDensity(
 	fork ForkPoint,
 	tipBlockNumber uint64,
 ) int {
+	return p.compareWithDensityMetric(
+		a, b, fork, tipBlockNumber, p.windowMetricFor(a, b),
+	)
+}
+
+// compareWithDensityMetric is CompareWithDensity with the density metric
+// fixed by the caller (see compareDensityMetric).
+func (p *PraosChainSelector) compareWithDensityMetric(
+	a, b ChainTip,
+	fork ForkPoint,
+	tipBlockNumber uint64,
+	useWindow bool,
+) int {
 	if a == nil && b == nil {
 		return 0
 	}
@@ -316,7 +353,7 @@ func (p *PraosChainSelector) CompareWithDensity(
 	}
 
 	// Deep forks: density within the genesis window decides first.
-	if result := p.compareDensity(a, b, fork); result != 0 {
+	if result := p.compareDensityMetric(a, b, fork, useWindow); result != 0 {
 		return result
 	}
 
@@ -364,8 +401,16 @@ func (p *PraosChainSelector) PreferredWithDensity(
 	fork ForkPoint,
 	tipBlockNumber uint64,
 ) ChainTip {
+	// One density metric for the whole candidate set. Choosing it per pair
+	// (window count between two windowed tips, legacy ratio as soon as one
+	// side cannot count) orders a mixed set inconsistently: the pairwise
+	// results can form a cycle, and the candidate returned then depends on
+	// the order of the slice and need not be preferred over the others.
+	useWindow := p.windowMetricFor(candidates...)
 	return p.selectPreferred(candidates, func(a, b ChainTip) int {
-		return p.CompareWithDensity(a, b, fork, tipBlockNumber)
+		return p.compareWithDensityMetric(
+			a, b, fork, tipBlockNumber, useWindow,
+		)
 	})
 }
 
